@@ -142,7 +142,8 @@ def extender_walk(core_genes_first, core_genes_last, core_loc, genes_sorted, loc
 
     def satisfied(g):
         return R.evaluate(ext, g, hits, {g: []}, True)
-    order = genes_sorted
+    # ring order by the start of each gene's span (a gene bridging the origin starts at its pre-origin part)
+    order = sorted(genes_sorted, key=lambda g: (ring.span(locs[g], wrap)[0][0], len(locs[g])))
     n = len(order)
     core_ivs = ring.parts_of(core_loc)
 
